@@ -68,6 +68,7 @@ template <> struct Mk<Integer> { static Integer go(const mpz_t z) { Integer r; m
     mpz_t m; mpz_init(m); mpz_fdiv_r_2exp(m, z, 64); unsigned long long u = GET; mpz_clear(m); return (T)u; } };
 MK_INT(int8_t, mpz_get_ui(m)) MK_INT(uint8_t, mpz_get_ui(m)) MK_INT(int16_t, mpz_get_ui(m)) MK_INT(uint16_t, mpz_get_ui(m))
 MK_INT(int32_t, mpz_get_ui(m)) MK_INT(uint32_t, mpz_get_ui(m)) MK_INT(int64_t, mpz_get_ui(m)) MK_INT(uint64_t, mpz_get_ui(m))
+MK_INT(long long, mpz_get_ui(m)) MK_INT(unsigned long long, mpz_get_ui(m))   // distinct from int64_t / uint64_t (long) on LP64
 template <> struct Mk<double> { static double go(const mpz_t z) { return mpz_get_d(z); } };
 template <> struct Mk<float> { static float go(const mpz_t z) { return (float)mpz_get_d(z); } };
 template <size_t K> struct Mk<ruint<K> > { static ruint<K> go(const mpz_t z) {
@@ -103,6 +104,9 @@ template <class R, class S> struct Allow : std::true_type {};
 template <class R, size_t K> struct Allow<R, ruint<K> > : std::false_type {};
 template <class R, size_t K> struct Allow<R, RecInt::rint<K> > : std::false_type {};
 #define ALLOW(...) template <> struct Allow<__VA_ARGS__ > : std::true_type {};
+// Modular<Integer>::init(long long): Integer(long long) is ambiguous inside the template body (a hard error): no such form
+template <> struct Allow<Modular<Integer>, long long> : std::false_type {};
+template <> struct Allow<Modular<Integer>, unsigned long long> : std::false_type {};
 #ifdef PROBE_R
 ALLOW(PROBE_R, PROBE_S)
 #else
@@ -157,6 +161,7 @@ template <class R> static std::string run_ring(const std::string& op, const std:
 #define SRC(NAME, T) if (src == NAME) return do_init<R, T>(*F, op, x);
     SRC("i8", int8_t) SRC("u8", uint8_t) SRC("i16", int16_t) SRC("u16", uint16_t)
     SRC("i32", int32_t) SRC("u32", uint32_t) SRC("i64", int64_t) SRC("u64", uint64_t)
+    SRC("ll", long long) SRC("ull", unsigned long long)
     SRC("f", float) SRC("d", double) SRC("I", Integer)
     SRC("ru6", ruint6) SRC("ru7", ruint7) SRC("ri6", rint6) SRC("ri7", rint7)
 #undef SRC
@@ -175,20 +180,31 @@ int main() {
         std::string out;
 #define RING(NAME, ...) else if (ring == NAME) out = run_ring<__VA_ARGS__ >(op, src, p, k, x);
         if (false) {}
+        // the ring list is split into parts (-DC04_PART=n) so that the translation units compile in parallel; checks/C04.py knows the map
+#if !defined(C04_PART) || C04_PART == 0
         RING("mi8", Modular<int8_t>) RING("mu8", Modular<uint8_t>) RING("mi16", Modular<int16_t>) RING("mu16", Modular<uint16_t>)
+#endif
+#if !defined(C04_PART) || C04_PART == 1
         RING("mi32", Modular<int32_t>) RING("mu32", Modular<uint32_t>) RING("mi64", Modular<int64_t>) RING("mu64", Modular<uint64_t>)
-        RING("mi8w", Modular<int8_t, int16_t>) RING("mu8w", Modular<uint8_t, uint16_t>)
-        RING("mi16w", Modular<int16_t, int32_t>) RING("mu16w", Modular<uint16_t, uint32_t>)
-        RING("mi32w", Modular<int32_t, int64_t>) RING("mu32w", Modular<uint32_t, uint64_t>)
-        RING("mi64w", Modular<int64_t, i128>) RING("mu64w", Modular<uint64_t, u128>)
-        RING("mf", Modular<float>) RING("md", Modular<double>) RING("mfd", Modular<float, double>)
-        RING("bd", ModularBalanced<double>) RING("bf", ModularBalanced<float>)
-        RING("bi32", ModularBalanced<int32_t>) RING("bi64", ModularBalanced<int64_t>)
-        RING("ef", ModularExtended<float>) RING("ed", ModularExtended<double>)
-        RING("log16", Modular<Log16>) RING("mont32", Montgomery<int32_t>)
-        RING("mI", Modular<Integer>)
+#endif
+#if !defined(C04_PART) || C04_PART == 2
+        RING("mi8w", Modular<int8_t, int16_t>) RING("mu8w", Modular<uint8_t, uint16_t>) RING("mi16w", Modular<int16_t, int32_t>) RING("mu16w", Modular<uint16_t, uint32_t>)
+#endif
+#if !defined(C04_PART) || C04_PART == 3
+        RING("mi32w", Modular<int32_t, int64_t>) RING("mu32w", Modular<uint32_t, uint64_t>) RING("mi64w", Modular<int64_t, i128>) RING("mu64w", Modular<uint64_t, u128>)
+#endif
+#if !defined(C04_PART) || C04_PART == 4
+        RING("mf", Modular<float>) RING("md", Modular<double>) RING("mfd", Modular<float, double>) RING("bd", ModularBalanced<double>) RING("bf", ModularBalanced<float>)
+#endif
+#if !defined(C04_PART) || C04_PART == 5
+        RING("bi32", ModularBalanced<int32_t>) RING("bi64", ModularBalanced<int64_t>) RING("ef", ModularExtended<float>) RING("ed", ModularExtended<double>)
+#endif
+#if !defined(C04_PART) || C04_PART == 6
+        RING("log16", Modular<Log16>) RING("mont32", Montgomery<int32_t>) RING("mI", Modular<Integer>) RING("gfq32", GFqDom<int32_t>) RING("gfq64", GFqDom<int64_t>)
+#endif
+#if !defined(C04_PART) || C04_PART == 7
         RING("mru7", Modular<ruint<7> >) RING("mru67", Modular<ruint<6>, ruint<7> >)
-        RING("gfq32", GFqDom<int32_t>) RING("gfq64", GFqDom<int64_t>)
+#endif
         else out = "BAD-RING";
 #undef RING
         std::cout << out << "\n";
